@@ -57,6 +57,14 @@ def gen(seed, tier):
         n, a = world['native'][0][:2]
         if not any(d[0] == n and d[1] == a for d in world['dynamic']):
             world['dynamic'] = world['dynamic'] + [[n, a, rng.randrange(1, 3)]]
+    if rng.random() < 0.4:
+        # a compiled predicate whose name starts with a native's name plus '_' (the engine keeps definitions under
+        # name_arity keys), called by an extra clause of the top predicate
+        n_, a_ = rng.choice(world['native'])[:2]
+        sib = '%s_%s' % (n_, rng.choice(('of', 'n', '1', 'x_2')))
+        idx = max([i for i, r in enumerate(world['rules']) if r.startswith('p(')] or [len(world['rules']) - 1])
+        world['rules'] = world['rules'][:idx + 1] + ['p(X,Y) :- %s(X,Y).' % sib, '%s(sib,b).' % sib, '%s(a,sib).' % sib] + world['rules'][idx + 1:]
+        world['sibling'] = sib
     late = None
     if rng.random() < 0.35:
         # a second script, loaded WITHOUT overwrite into both engines after everything else, that adds clauses to one
